@@ -7,6 +7,7 @@ from fractions import Fraction
 import numpy as np
 
 from .sharing import sharing as _sharing
+from .impl1 import meta_repr
 
 from .core import nrs, rs
 from .impl1 import REFUSED, Store, arr, fl, mk_binning, np_dtype, num_of
@@ -43,6 +44,7 @@ def snapn(x) -> dict:
         "_class": type(x).__name__, "_freq_dtype": str(f.dtype), "_err2_dtype": str(e.dtype),
         "_shape_ok": f.shape == e.shape == tuple(b.shape[0] for b in bins),
         "_numpy_bins": [_nb(b) for b in ([x.binning] if isinstance(x, Histogram1D) else x.binnings)],
+        "_meta": meta_repr(x),
     }
 
 
@@ -207,6 +209,16 @@ def step(s: Store, op: dict, log: list):
                 x.dtype = op["dtype"]
             else:
                 x.set_dtype(op["dtype"])
+            return "ok"
+        if name == "set_meta":          # h.meta_data[key] = value (a JSON-like value, possibly a nested list / dict)
+            import copy as _copy
+            s.get(op["h"]).meta_data[op["key"]] = _copy.deepcopy(op["value"])
+            return "ok"
+        if name == "append_meta":       # an edit INSIDE a nested meta-data value: h.meta_data[key].append(x)
+            md = s.get(op["h"]).meta_data
+            if not isinstance(md.get(op["key"]), list):
+                return "ok"             # this object does not carry the entry: nothing to edit
+            md[op["key"]].append(op["value"])
             return "ok"
         if name == "set_adaptive":
             x = s.get(op["h"])
